@@ -967,8 +967,25 @@ def impl_usable(line):
     return tf(ok)
 
 
+# second tie: the `__eq__` / `__hash__` methods translated from the source text on every run (harness/srcunits.py: SrcEq),
+# proved equal to the model's `Coord.eq` / `Shape.eq` / `Multi.eq?` and hash keys (see common.Run.source_tie)
+SRC_MODULE = 'GeoVerif.Props.C15Src'
+SRC_THEOREMS = ['GV.C15Src.' + t for t in (
+    'coordEq_eq', 'coordEqOther_eq', 'coordHash_eq', 'pointEq_eq', 'pointEqOther_eq', 'pointHash_eq',
+    'lineEq_eq', 'lineEqOther_eq', 'lineHash_eq', 'boxEq_eq', 'boxEqOther_eq', 'boxHash_eq',
+    'circleEq_eq', 'circleEqOther_eq', 'circleHash_eq', 'ellipseEq_eq', 'ellipseEqOther_eq', 'ellipseHash_eq',
+    'ringEq_eq', 'ringEqOther_eq', 'ringCentroid_eq', 'ringHash_eq',
+    'polyAfter_eq', 'polyLoop_eq', 'polyEq_eq', 'polyEqOther_eq', 'polyHash_eq',
+    'multiEq_eq', 'multiEqOther_eq', 'multiHash_eq', 'mpointHash_eq',
+    'srcHoleEq_eq', 'srcShapeEq_eq', 'srcShapeKey_eq', 'src_multiEq_eq', 'srcMultiKey_eq',
+    'src_coord_eq_iff_hash', 'src_coord_m_irrelevant', 'src_poly_eq_total', 'src_poly_eq_refl', 'src_poly_eq_symm',
+    'src_poly_eq_trans', 'src_poly_eq_imp_hash', 'src_poly_eq_rewrite', 'src_shape_eq_refl', 'src_shape_eq_symm',
+    'src_shape_eq_trans', 'src_shape_eq_imp_hash', 'src_multi_eq_imp_hash')]
+
+
 def check(run):
     run.prove(MODULE, THEOREMS)
+    run.source_tie(['SrcEq', 'SrcTime'], SRC_MODULE, SRC_THEOREMS)
 
     def tag_pairs(ln, a):
         op = ln.split(' ', 1)[0].split('.')[1]
